@@ -20,6 +20,7 @@ import (
 	"io"
 	"net"
 	"net/http"
+	"time"
 
 	"github.com/honeytrap/honeytrap/director"
 	"github.com/honeytrap/honeytrap/event"
@@ -56,6 +57,16 @@ func (s *httpProxy) SetChannel(c pushers.Channel) {
 	s.c = c
 }
 
+// backendReader gives the backend 30 s for every piece of a reply: it may take its time over
+// a long body, but a backend that takes the request and falls silent must not pin the
+// handler (and the client's connection) for ever.
+type backendReader struct{ net.Conn }
+
+func (b backendReader) Read(p []byte) (int, error) {
+	b.Conn.SetReadDeadline(time.Now().Add(30 * time.Second))
+	return b.Conn.Read(p)
+}
+
 func (s *httpProxy) Handle(ctx context.Context, conn net.Conn) error {
 	defer conn.Close()
 
@@ -70,7 +81,7 @@ func (s *httpProxy) Handle(ctx context.Context, conn net.Conn) error {
 	// request (reply) would take what it had read ahead - the next pipelined request -
 	// with it
 	reader := bufio.NewReader(conn)
-	reader2 := bufio.NewReader(conn2)
+	reader2 := bufio.NewReader(backendReader{conn2})
 
 	for {
 		req, err := http.ReadRequest(reader)
